@@ -267,8 +267,12 @@ fn safe_snapshot(node: &Node) -> Result<ChainSnapshot, String> {
 }
 
 fn tree_of(h: &[HBlock], gp: u64) -> BuiltTree {
+    // the spec is only carried along (oracle_c03 reads the blocks); built through the generator so
+    // that fields added to TreeSpec later get their defaults
+    let mut spec: TreeSpec = chainsim::random_spec(&mut Rng::new(1), 2, gp, 0, false);
+    spec.nodes.clear();
     BuiltTree {
-        spec: TreeSpec { gp, nodes: vec![], n_outputs: 0, loading_completed: false },
+        spec,
         blocks: h.iter().map(|b| b.block.clone()).collect(),
         valid_twin: vec![],
         eff_invalid: h.iter().map(|b| b.eff_invalid).collect(),
@@ -313,14 +317,48 @@ async fn deliver(h: &mut Hist, node: &mut Node, idx: usize) -> AddClass {
     class
 }
 
+/// one step of a history
+#[derive(Clone, Debug)]
+enum Action {
+    /// the node produces a block on its tip
+    Extend { dt: u64, tx: bool, split: bool, fee: u64, gt: bool },
+    /// blocks built by a second node on the ancestor `depth` below the tip: (dt, tx, gt); the first
+    /// one is a validly signed but invalid block (burn fee off by one) if `invalid`
+    Fork { depth: usize, blocks: Vec<(u64, bool, bool)>, invalid: bool },
+    /// clean shutdown and restart through the real on_init; the journal continues
+    Restart,
+}
+
 struct GenOpts {
     gp: u64,
     steps: usize,
     fork_pct: u64,
     invalid_pct: u64,
     restart_pct: u64,
-    /// scripted shape (None = random)
-    script: Option<&'static str>,
+    /// scripted history (None = random)
+    script: Option<Vec<Action>>,
+}
+
+fn random_action(rng: &mut Rng, o: &GenOpts, tip_id: u64, restarts: usize, n_blocks: usize) -> Action {
+    let roll = rng.below(100);
+    if roll < o.restart_pct && restarts < 2 && n_blocks > 2 {
+        return Action::Restart;
+    }
+    if roll < o.restart_pct + o.fork_pct && tip_id >= 2 {
+        let depth = rng.range(1, 3.min(tip_id - 1)) as usize;
+        let len = rng.range(1, depth as u64 + 1) as usize;
+        let blocks = (0..len)
+            .map(|_| (*rng.pick(&[150u64, 250, 400, 1000, 100_000]), rng.chance(1, 2), rng.chance(3, 5)))
+            .collect();
+        return Action::Fork { depth, blocks, invalid: rng.chance(o.invalid_pct, 100) };
+    }
+    Action::Extend {
+        dt: *rng.pick(&[200u64, 300, 1000, 100_000]),
+        tx: rng.chance(2, 3),
+        split: rng.chance(1, 3),
+        fee: *rng.pick(&[0u64, 0, 1000]),
+        gt: rng.chance(7, 10),
+    }
 }
 
 /// replays the path root..=idx into a fresh builder node
@@ -354,138 +392,205 @@ async fn gen_history(rng: &mut Rng, o: &GenOpts) -> Hist {
     let mut restarts = 0;
     let mut step = 0;
     let mut seed = rng.next() % 1_000_000;
-    while step < o.steps {
-        step += 1;
+    let n_steps = o.script.as_ref().map(|s| s.len()).unwrap_or(o.steps);
+    while step < n_steps {
         seed += 1;
         let tip_hash = node.blockchain.blockring.get_latest_block_hash();
         let tip_idx = match h.blocks.iter().position(|b| b.block.hash == tip_hash) {
             Some(i) => i,
             None => break,
         };
-        let roll = rng.below(100);
-        if roll < o.restart_pct && restarts < 2 && h.blocks.len() > 2 {
-            // clean restart in the middle of the history: the journal continues
-            restarts += 1;
-            let disk = node.disk.clone();
-            match restart_real(&params, 1, disk).await {
-                Ok(n2) => {
-                    let before = h.marks.last().and_then(|m| m.snap.as_ref()).map(|s| s.tip_hash);
-                    let after = safe_snapshot(&n2).ok().map(|s| s.tip_hash);
-                    if before != after {
-                        // the restarted node is on another block: that is judged at the clean crash
-                        // point at the end of the previous step; the history ends before this restart
-                        let keep = h.marks.last().map(|m| m.journal_len).unwrap_or(0);
-                        n2.disk.lock().unwrap().journal.truncate(keep);
+        let action = match &o.script {
+            Some(sc) => sc[step].clone(),
+            None => random_action(rng, o, h.blocks[tip_idx].block.id, restarts, h.blocks.len()),
+        };
+        step += 1;
+        match action {
+            Action::Restart => {
+                restarts += 1;
+                let disk = node.disk.clone();
+                match restart_real(&params, 1, disk).await {
+                    Ok(n2) => {
+                        let before = h.marks.last().and_then(|m| m.snap.as_ref()).map(|s| s.tip_hash);
+                        let after = safe_snapshot(&n2).ok().map(|s| s.tip_hash);
+                        if before != after {
+                            // the restarted node is on another block: that is judged at the clean crash
+                            // point at the end of the previous step; the history ends before this restart
+                            let keep = h.marks.last().map(|m| m.journal_len).unwrap_or(0);
+                            n2.disk.lock().unwrap().journal.truncate(keep);
+                            node = n2;
+                            break;
+                        }
                         node = n2;
+                        record(&mut h, &node, "restart".to_string(), "Restart".to_string()).await;
+                    }
+                    Err(m) => {
+                        h.notes.push(format!("clean restart inside the history panicked: {}", m));
                         break;
                     }
-                    node = n2;
-                    record(&mut h, &node, "restart".to_string(), "Restart".to_string()).await;
-                }
-                Err(m) => {
-                    h.notes.push(format!("clean restart inside the history panicked: {}", m));
-                    break;
                 }
             }
-            continue;
-        }
-        if roll < o.restart_pct + o.fork_pct && h.blocks[tip_idx].block.id >= 2 {
-            // a fork of `len` blocks on the ancestor `depth` below the tip
-            let depth = rng.range(1, 3.min(h.blocks[tip_idx].block.id - 1)) as usize;
-            let len = rng.range(1, depth as u64 + 1) as usize;
-            let mut base = tip_idx;
-            for _ in 0..depth {
-                base = h.blocks[base].parent.unwrap();
-            }
-            if !node.blockchain.blocks.contains_key(&h.blocks[base].block.hash) {
-                continue;
-            }
-            let mut b = match builder_at(&h, base).await {
-                Some(b) => b,
-                None => continue,
-            };
-            let mut parent_idx = base;
-            let mut parent_valid: Block = h.blocks[base].block.clone();
-            let mut eff_invalid = false;
-            for j in 0..len {
-                seed += 1;
-                let dt = *rng.pick(&[150u64, 250, 400, 1000, 100_000]);
-                let ts = parent_valid.timestamp + dt;
-                let mut txs = vec![];
-                let sp = spendable(&b);
-                if !sp.is_empty() && rng.chance(1, 2) {
-                    let s = rng.pick(&sp).clone();
-                    let fee = *rng.pick(&[0u64, 0, 1000]);
-                    txs.push(make_tx(&[s.clone()], &[(b.pk, s.amount - fee)], &b.sk, ts));
+            Action::Fork { depth, blocks, invalid } => {
+                if h.blocks[tip_idx].block.id < depth as u64 + 1 {
+                    continue;
                 }
-                let with_gt = rng.chance(3, 5);
-                let valid = match make_block(&b, parent_valid.hash, ts, txs, with_gt, seed).await {
-                    Ok(x) => x,
-                    Err(_) => break,
+                let mut base = tip_idx;
+                for _ in 0..depth {
+                    base = h.blocks[base].parent.unwrap();
+                }
+                if !node.blockchain.blocks.contains_key(&h.blocks[base].block.hash) {
+                    continue;
+                }
+                let mut b = match builder_at(&h, base).await {
+                    Some(b) => b,
+                    None => continue,
                 };
-                match futures_catch(AssertUnwindSafe(b.add_block(valid.clone()))).await {
-                    Ok(AddClass::OnChain) => {}
-                    _ => break,
+                let mut parent_idx = base;
+                let mut parent_valid: Block = h.blocks[base].block.clone();
+                let mut eff_invalid = false;
+                for (j, (dt, with_tx, gt)) in blocks.iter().enumerate() {
+                    seed += 1;
+                    let ts = parent_valid.timestamp + dt;
+                    let mut txs = vec![];
+                    let sp = spendable(&b);
+                    if !sp.is_empty() && *with_tx {
+                        let s = rng.pick(&sp).clone();
+                        let fee = *rng.pick(&[0u64, 0, 1000]);
+                        txs.push(make_tx(&[s.clone()], &[(b.pk, s.amount - fee)], &b.sk, ts));
+                    }
+                    let with_gt = *gt || txs.is_empty();
+                    let valid = match make_block(&b, parent_valid.hash, ts, txs, with_gt, seed).await {
+                        Ok(x) => x,
+                        Err(_) => break,
+                    };
+                    match futures_catch(AssertUnwindSafe(b.add_block(valid.clone()))).await {
+                        Ok(AddClass::OnChain) => {}
+                        _ => break,
+                    }
+                    let mut delivered = valid.clone();
+                    if delivered.previous_block_hash != h.blocks[parent_idx].block.hash {
+                        delivered.previous_block_hash = h.blocks[parent_idx].block.hash;
+                        resign(&mut delivered, &b.sk);
+                    }
+                    if j == 0 && invalid {
+                        delivered.burnfee += 1;
+                        resign(&mut delivered, &b.sk);
+                        eff_invalid = true;
+                    }
+                    if h.blocks.iter().any(|x| x.block.hash == delivered.hash) {
+                        break;
+                    }
+                    h.blocks.push(HBlock { block: delivered, parent: Some(parent_idx), eff_invalid });
+                    let idx = h.blocks.len() - 1;
+                    deliver(&mut h, &mut node, idx).await;
+                    parent_idx = idx;
+                    parent_valid = valid;
                 }
-                let mut delivered = valid.clone();
-                if delivered.previous_block_hash != h.blocks[parent_idx].block.hash {
-                    delivered.previous_block_hash = h.blocks[parent_idx].block.hash;
-                    resign(&mut delivered, &b.sk);
+            }
+            Action::Extend { dt, tx, split, fee, gt } => {
+                // extend the tip with the node itself as producer
+                let parent = h.blocks[tip_idx].block.clone();
+                let ts = parent.timestamp + dt;
+                let mut txs = vec![];
+                let sp = spendable(&node);
+                if !sp.is_empty() && tx {
+                    let s = rng.pick(&sp).clone();
+                    let keep = s.amount - fee;
+                    if split && keep > 10_000 {
+                        txs.push(make_tx(&[s.clone()], &[(node.pk, keep / 2), (node.pk, keep - keep / 2)], &node.sk, ts));
+                    } else {
+                        txs.push(make_tx(&[s.clone()], &[(node.pk, keep)], &node.sk, ts));
+                    }
                 }
-                if j == 0 && rng.chance(o.invalid_pct, 100) {
-                    delivered.burnfee += 1;
-                    resign(&mut delivered, &b.sk);
-                    eff_invalid = true;
+                let with_gt = gt || txs.is_empty();
+                let blk = match futures_catch(AssertUnwindSafe(make_block(&node, parent.hash, ts, txs, with_gt, seed))).await {
+                    Ok(Ok(b)) => b,
+                    Ok(Err(_)) => continue,
+                    Err(m) => {
+                        h.notes.push(format!("producer panicked: {}", m));
+                        break;
+                    }
+                };
+                if h.blocks.iter().any(|x| x.block.hash == blk.hash) {
+                    continue;
                 }
-                if h.blocks.iter().any(|x| x.block.hash == delivered.hash) {
+                h.blocks.push(HBlock { block: blk, parent: Some(tip_idx), eff_invalid: false });
+                let idx = h.blocks.len() - 1;
+                let c = deliver(&mut h, &mut node, idx).await;
+                if c == AddClass::Panicked {
                     break;
                 }
-                h.blocks.push(HBlock { block: delivered, parent: Some(parent_idx), eff_invalid });
-                let idx = h.blocks.len() - 1;
-                deliver(&mut h, &mut node, idx).await;
-                parent_idx = idx;
-                parent_valid = valid;
             }
-            continue;
-        }
-        // extend the tip with the node itself as producer
-        let parent = h.blocks[tip_idx].block.clone();
-        let dt = *rng.pick(&[200u64, 300, 1000, 100_000]);
-        let ts = parent.timestamp + dt;
-        let mut txs = vec![];
-        let sp = spendable(&node);
-        if !sp.is_empty() && rng.chance(2, 3) {
-            let s = rng.pick(&sp).clone();
-            let fee = *rng.pick(&[0u64, 0, 1000]);
-            let keep = s.amount - fee;
-            if rng.chance(1, 3) && keep > 10_000 {
-                txs.push(make_tx(&[s.clone()], &[(node.pk, keep / 2), (node.pk, keep - keep / 2)], &node.sk, ts));
-            } else {
-                txs.push(make_tx(&[s.clone()], &[(node.pk, keep)], &node.sk, ts));
-            }
-        }
-        let with_gt = rng.chance(7, 10);
-        let blk = match futures_catch(AssertUnwindSafe(make_block(&node, parent.hash, ts, txs, with_gt, seed))).await {
-            Ok(Ok(b)) => b,
-            Ok(Err(_)) => continue,
-            Err(m) => {
-                h.notes.push(format!("producer panicked: {}", m));
-                break;
-            }
-        };
-        if h.blocks.iter().any(|x| x.block.hash == blk.hash) {
-            continue;
-        }
-        h.blocks.push(HBlock { block: blk, parent: Some(tip_idx), eff_invalid: false });
-        let idx = h.blocks.len() - 1;
-        let c = deliver(&mut h, &mut node, idx).await;
-        if c == AddClass::Panicked {
-            break;
         }
     }
-    let _ = o.script;
     h.journal = node.disk.lock().unwrap().journal.clone();
     h
+}
+
+/// scripted histories: the listed findings in their smallest form, run in every tier
+fn scripts() -> Vec<(&'static str, u64, bool, Vec<Action>)> {
+    let ext = |dt: u64| Action::Extend { dt, tx: true, split: false, fee: 0, gt: true };
+    vec![
+        // two competing blocks at height 2; the one that arrives first has the larger timestamp
+        ("equal-length-fork", 20, true, vec![ext(100_000), Action::Fork { depth: 1, blocks: vec![(200, false, true)], invalid: false }]),
+        // the same tie, then the node extends its branch: restarted, it stays on the sibling
+        (
+            "fork-then-growth",
+            20,
+            true,
+            vec![ext(100_000), Action::Fork { depth: 1, blocks: vec![(200, false, true)], invalid: false }, ext(100_000), ext(100_000)],
+        ),
+        // an invalid sibling with a smaller timestamp and its child, both stored off chain
+        (
+            "invalid-sibling-with-child",
+            20,
+            true,
+            vec![ext(100_000), ext(100_000), Action::Fork { depth: 2, blocks: vec![(200, false, true), (200, false, true)], invalid: true }],
+        ),
+        // a clean restart inside a linear history (crash points inside the restart: rewrites)
+        ("linear-with-restart", 20, true, vec![ext(300), ext(300), ext(300), Action::Restart, ext(300), ext(300)]),
+        // genesis period 3: siblings at height 2 survive the purge of their parent
+        (
+            "siblings-above-purged-parent",
+            3,
+            false,
+            vec![
+                ext(100_000),
+                Action::Fork { depth: 1, blocks: vec![(200, false, true)], invalid: false },
+                ext(300),
+                ext(300),
+                ext(300),
+                ext(300),
+                ext(300),
+                ext(300),
+                ext(300),
+            ],
+        ),
+        // the same with three siblings at height 2 (one older, one younger than the block the node is on)
+        (
+            "three-siblings-above-purged-parent",
+            3,
+            false,
+            vec![
+                ext(300),
+                Action::Fork { depth: 1, blocks: vec![(150, false, true)], invalid: false },
+                Action::Fork { depth: 1, blocks: vec![(1000, true, true)], invalid: false },
+                ext(100_000),
+                ext(300),
+                ext(300),
+                ext(300),
+                ext(300),
+                ext(300),
+            ],
+        ),
+        // genesis period 3: restart far beyond the purge horizon, crash while the restart rewrites files
+        (
+            "restart-after-purge",
+            3,
+            false,
+            vec![ext(300), ext(300), ext(300), ext(300), ext(300), ext(300), ext(300), ext(300), Action::Restart, ext(300)],
+        ),
+    ]
 }
 
 // ------------------------------------------------------------------ one crash point
@@ -510,6 +615,13 @@ struct Outcome {
     loaded: usize,
     /// ids of stored blocks that were delivered while their parent was not stored
     orphans: Vec<u64>,
+    /// their parents
+    orphan_parents: Vec<SaitoHash>,
+    /// (hash, id) of every decodable file of the crashed disk
+    disk_blocks: Vec<(SaitoHash, u64)>,
+    /// storage operations of the restart itself: (1 = write / 0 = remove, file name)
+    ops: Vec<(u64, String)>,
+    final_files: Vec<String>,
 }
 
 fn run_crash_point(h: &Arc<HistShared>, cp: &CrashPoint, budget: Duration) -> Result<Outcome, String> {
@@ -536,11 +648,15 @@ struct HistShared {
 async fn eval_crash_point(h: &HistShared, cp: &CrashPoint) -> Outcome {
     saito_core::core::consensus::blockchain::VERIF_WIND_STEPS.with(|c| c.set((0, u64::MAX)));
     let d = disk_after(&h.journal, cp.k, cp.torn.map(|t| t.1));
-    let intact_on_disk = d
-        .files
-        .values()
-        .filter(|v| matches!(std::panic::catch_unwind(|| Block::deserialize_from_net(v)), Ok(Ok(_))))
-        .count();
+    let mut disk_blocks: Vec<(SaitoHash, u64)> = vec![];
+    for v in d.files.values() {
+        if let Ok(Ok(mut b)) = std::panic::catch_unwind(|| Block::deserialize_from_net(v)) {
+            if b.generate().is_ok() {
+                disk_blocks.push((b.hash, b.id));
+            }
+        }
+    }
+    let intact_on_disk = disk_blocks.len();
     let disk = Arc::new(Mutex::new(d));
     let mut out = Outcome {
         panic: None,
@@ -553,6 +669,10 @@ async fn eval_crash_point(h: &HistShared, cp: &CrashPoint) -> Outcome {
         intact_on_disk,
         loaded: 0,
         orphans: vec![],
+        orphan_parents: vec![],
+        disk_blocks,
+        ops: vec![],
+        final_files: vec![],
     };
     let mut node = match restart_real(&h.params, 1, disk.clone()).await {
         Ok(n) => n,
@@ -565,13 +685,18 @@ async fn eval_crash_point(h: &HistShared, cp: &CrashPoint) -> Outcome {
         let d = disk.lock().unwrap();
         for op in &d.journal {
             match op {
-                DiskOp::Write(_, _) => out.restart_ops.0 += 1,
+                DiskOp::Write(n, _) => {
+                    out.restart_ops.0 += 1;
+                    out.ops.push((1, n.clone()));
+                }
                 DiskOp::Remove(n) => {
                     out.restart_ops.1 += 1;
                     out.deleted.push(n.clone());
+                    out.ops.push((0, n.clone()));
                 }
             }
         }
+        out.final_files = d.files.keys().cloned().collect();
     }
     out.loaded = node.blockchain.blocks.len();
     {
@@ -582,6 +707,7 @@ async fn eval_crash_point(h: &HistShared, cp: &CrashPoint) -> Outcome {
         for b in bc.blocks.values() {
             if !bc.blocks.contains_key(&b.previous_block_hash) && Some((b.id, b.get_file_name())) != first {
                 out.orphans.push(b.id);
+                out.orphan_parents.push(b.previous_block_hash);
             }
         }
         out.orphans.sort();
@@ -742,6 +868,37 @@ fn judge(ctx: &Ctx, cp: &CrashPoint, out: &Result<Outcome, String>) -> Verdict {
         v.tip_class = "unknown-block";
         v.failures.push(format!("the restarted tip (id {}) is not a block the node had stored before the crash", s.tip_id));
     }
+    // every failure of a restart that replayed a block while its parent was not stored is
+    // attributed to that listed finding (as C05 does for the orphan branch of add_block)
+    // ... provided the missing parent is explained by one of the listed triggers: its file is on the
+    // crashed disk and decodes (it was rejected when replayed), or it lies at / below the oldest height
+    // on disk (it was purged: siblings above a purged parent, crash between the deletions of a purge).
+    // A parent missing from the MIDDLE of the stored range is not listed.
+    let min_disk_id = out.disk_blocks.iter().map(|x| x.1).min().unwrap_or(0);
+    let explained = out.orphan_parents.iter().all(|ph| {
+        out.disk_blocks.iter().any(|x| x.0 == *ph)
+            || ctx.by_hash.get(ph).map(|i| h.blocks[*i].block.id <= min_disk_id).unwrap_or(false)
+    });
+    if !out.orphans.is_empty() && !explained {
+        v.failures.push(format!(
+            "blocks with ids {:?} were replayed while their parent was not stored, and the parent is neither a rejected file nor at the purge horizon (oldest id on disk {})",
+            out.orphans, min_disk_id
+        ));
+    }
+    let orphaned = !out.orphans.is_empty() && explained;
+    let mut fail = |v: &mut Verdict, id: Option<&'static str>, w: String| {
+        if orphaned {
+            v.known.push((ID_ORPHAN, format!("{} (blocks with ids {:?} were replayed while their parent was not stored)", w, out.orphans)));
+        } else if let Some(id) = id {
+            v.known.push((id, w));
+        } else {
+            v.failures.push(w);
+        }
+    };
+    if v.tip_class == "unknown-block" {
+        let w = v.failures.pop().unwrap();
+        fail(&mut v, None, w);
+    }
     // ---- clean shutdown: same tip, same in-window spendable set, same supply
     if clean {
         if let Some(os) = &after.snap {
@@ -754,35 +911,28 @@ fn judge(ctx: &Ctx, cp: &CrashPoint, out: &Result<Outcome, String>) -> Verdict {
                     "clean restart: tip differs: the node was on block id {} and restarted on block id {} ({})",
                     os.tip_id, s.tip_id, v.tip_class
                 );
-                if other_branch {
-                    v.known.push((ID_FORK, w));
-                } else {
-                    v.failures.push(w);
-                }
+                fail(&mut v, if other_branch { Some(ID_FORK) } else { None }, w);
             } else {
                 let a = in_window_utxo(os, gp);
                 let b = in_window_utxo(s, gp);
                 if a != b {
-                    v.failures.push(format!(
+                    let w = format!(
                         "clean restart: in-window spendable set differs: {} only before, {} only after",
                         a.difference(&b).count(),
                         b.difference(&a).count()
-                    ));
+                    );
+                    fail(&mut v, None, w);
                 }
                 if after.supply != out.supply {
-                    v.failures.push(format!("clean restart: supply {} before, {} after", after.supply, out.supply));
+                    let w = format!("clean restart: supply {} before, {} after", after.supply, out.supply);
+                    fail(&mut v, None, w);
                 }
             }
         }
     }
     // ---- valid chain (C03 replay oracle on the restarted node)
     for f in &out.c03 {
-        let w = format!("restarted chain is not valid: {}", f);
-        if !out.orphans.is_empty() {
-            v.known.push((ID_ORPHAN, format!("{} (blocks with ids {:?} were replayed while their parent was not stored)", w, out.orphans)));
-        } else {
-            v.failures.push(w);
-        }
+        fail(&mut v, None, format!("restarted chain is not valid: {}", f));
     }
     // ---- supply conserved
     if tip != [0u8; 32] && out.supply != h.issued {
@@ -790,18 +940,20 @@ fn judge(ctx: &Ctx, cp: &CrashPoint, out: &Result<Outcome, String>) -> Verdict {
             "supply of the restarted node is {} but {} was issued (restarted tip id {}: {}, {} blocks behind)",
             out.supply, h.issued, s.tip_id, v.tip_class, v.lost
         );
-        if v.tip_class == "other-known-branch" {
+        let id = if v.tip_class == "other-known-branch" {
             // the node restarted on a competing branch whose window is no longer on disk
-            v.known.push((ID_FORK, w));
-        } else if v.tip_class == "ancestor" && cp.torn.is_some() && v.lost > 0 {
-            v.known.push((ID_WIPE, w));
+            Some(ID_FORK)
+        } else if v.tip_class == "ancestor" && cp.torn.is_some() && v.lost >= gp {
+            // a torn file made the node discard at least a whole window of later blocks
+            Some(ID_WIPE)
         } else {
-            v.failures.push(w);
-        }
+            None
+        };
+        fail(&mut v, id, w);
     }
     // ---- can extend
     if let Some(m) = &out.extend {
-        v.failures.push(format!("cannot extend: {}", m));
+        fail(&mut v, None, format!("cannot extend: {}", m));
     }
     v
 }
@@ -848,28 +1000,151 @@ fn hist_json(h: &Hist) -> String {
     )
 }
 
+/// order-preserving interning: index = rank of the real hash, so that the model's numeric
+/// order of file keys (timestamp, hash) is the implementation's order of file names
+fn rank_interned(h: &Hist) -> chainsim::Interned {
+    let mut hs: Vec<SaitoHash> = h.blocks.iter().map(|b| b.block.hash).collect();
+    hs.sort();
+    hs.dedup();
+    let hash_idx: BTreeMap<SaitoHash, u64> = hs.iter().enumerate().map(|(i, x)| (*x, i as u64 + 1)).collect();
+    let mut keys = Interner::default();
+    for b in &h.blocks {
+        for tx in &b.block.transactions {
+            for s in tx.from.iter().chain(tx.to.iter()) {
+                if s.amount > 0 {
+                    keys.get(&s.utxoset_key);
+                }
+            }
+        }
+    }
+    chainsim::Interned { hash_idx, keys }
+}
+
+fn gallina_pblks(h: &Hist, int: &mut chainsim::Interned) -> String {
+    let mut items = vec![];
+    for b in &h.blocks {
+        let blk = &b.block;
+        let mut txs = vec![];
+        for tx in &blk.transactions {
+            let ins: Vec<u64> = tx.from.iter().filter(|s| s.amount > 0).map(|s| int.keys.get(&s.utxoset_key)).collect();
+            let outs: Vec<u64> = tx.to.iter().filter(|s| s.amount > 0).map(|s| int.keys.get(&s.utxoset_key)).collect();
+            txs.push(format!("({}, {})", gal::nlist(&ins), gal::nlist(&outs)));
+        }
+        items.push(format!(
+            "({}, mkB {} {} {} {} {} {} {})",
+            blk.timestamp,
+            chainsim::hidx(int, &blk.hash),
+            chainsim::hidx(int, &blk.previous_block_hash),
+            blk.id,
+            blk.burnfee,
+            gal::boolean(blk.has_golden_ticket),
+            gal::boolean(!b.eff_invalid),
+            gal::list(&txs)
+        ));
+    }
+    gal::list(&items)
+}
+
+fn name_hash(name: &str) -> SaitoHash {
+    // "<dir>/<timestamp>-<64 hex>.sai"
+    let base = name.rsplit('/').next().unwrap_or(name);
+    let hexpart = base.split('-').nth(1).unwrap_or("").trim_end_matches(".sai");
+    let mut out = [0u8; 32];
+    if let Ok(v) = hex::decode(hexpart) {
+        if v.len() == 32 {
+            out.copy_from_slice(&v);
+        }
+    }
+    out
+}
+
+fn gallina_journal(h: &Hist, int: &chainsim::Interned) -> String {
+    let items: Vec<String> = h
+        .journal
+        .iter()
+        .map(|op| match op {
+            DiskOp::Write(n, _) => format!("(1, {})", chainsim::hidx(int, &name_hash(n))),
+            DiskOp::Remove(n) => format!("(0, {})", chainsim::hidx(int, &name_hash(n))),
+        })
+        .collect();
+    gal::list(&items)
+}
+
+fn impl_rows(int: &mut chainsim::Interned, o: &Outcome) -> Vec<Vec<u64>> {
+    if o.panic.is_some() || o.snap.is_none() {
+        return vec![vec![9]];
+    }
+    let mut rows = chainsim::snapshot_rows(int, 0, 0, o.snap.as_ref().unwrap());
+    rows.remove(0);
+    let mut ops = vec![];
+    for (t, n) in &o.ops {
+        ops.push(*t);
+        ops.push(chainsim::hidx(int, &name_hash(n)));
+    }
+    rows.push(ops);
+    rows.push(o.final_files.iter().map(|n| chainsim::hidx(int, &name_hash(n))).collect());
+    rows
+}
+
 fn main() {
     verif_harness::common::init_log();
     let args = Args::parse();
     let thorough = args.tier == "thorough";
     let mut rng = Rng::new(args.seed);
     let mut summary = Summary::new("C12");
-    let n_hist = if thorough { 120 } else { 24 };
-    let per_hist_budget = if thorough { usize::MAX } else { 40 };
+    // phase 1: histories inside the regime of the Coq chain model (every id <= 2 * genesis
+    // period): every crash point is also a model case, so case numbers coincide.
+    // phase 2: small genesis periods with purging, pruning and rebroadcast: direct oracles only.
+    let (n_model, n_purge) = if thorough { (60, 260) } else { (10, 36) };
+    let per_hist_budget = if thorough { usize::MAX } else { 120 };
     let rt = tokio::runtime::Builder::new_current_thread().enable_all().build().unwrap();
     let mut case_no = 0usize;
     let mut distinct: BTreeSet<String> = BTreeSet::new();
     let debug = std::env::var("C12_DEBUG").is_ok();
-    for hi in 0..n_hist {
-        let gp = *rng.pick(&[3u64, 3, 5, 5, 8, 20]);
-        let steps = match gp {
-            3 => rng.range(6, 14),
-            5 => rng.range(8, 18),
-            8 => rng.range(10, 24),
-            _ => rng.range(5, 14),
-        } as usize;
-        let o = GenOpts { gp, steps, fork_pct: 25, invalid_pct: 15, restart_pct: 6, script: None };
+    let mut coq_cases: Vec<String> = vec![];
+    let mut torn_rejected = 0u64;
+    let mut clean_points = 0u64;
+    let scripted = scripts();
+    let n_script_model = scripted.iter().filter(|x| x.2).count();
+    let n_model = n_model + n_script_model;
+    for hi in 0..(n_model + n_purge + scripted.len() - n_script_model) {
+        let model = hi < n_model;
+        // scripted histories: the model-regime ones come first, the purging ones open phase 2
+        let script = if hi < n_script_model {
+            Some(scripted.iter().filter(|x| x.2).nth(hi).unwrap().clone())
+        } else if hi >= n_model && hi - n_model < scripted.len() - n_script_model {
+            Some(scripted.iter().filter(|x| !x.2).nth(hi - n_model).unwrap().clone())
+        } else {
+            None
+        };
+        let (gp, steps) = if let Some(sc) = &script {
+            (sc.1, sc.3.len())
+        } else if model {
+            let gp = *rng.pick(&[5u64, 8, 20, 20]);
+            (gp, rng.range(4, (2 * gp - 2).min(13)) as usize)
+        } else {
+            let gp = *rng.pick(&[3u64, 3, 5, 5, 8]);
+            let steps = match gp {
+                3 => rng.range(6, 16),
+                5 => rng.range(8, 20),
+                _ => rng.range(12, 28),
+            } as usize;
+            (gp, steps)
+        };
+        let o = GenOpts {
+            gp,
+            steps,
+            fork_pct: 25,
+            invalid_pct: 15,
+            restart_pct: 6,
+            script: script.as_ref().map(|x| x.3.clone()),
+        };
         let h = rt.block_on(gen_history(&mut rng, &o));
+        if let Some(sc) = &script {
+            summary.count("scripted_history", sc.0);
+        }
+        let per_hist_budget = if script.is_some() { usize::MAX } else { per_hist_budget };
+        let in_regime = h.blocks.iter().all(|b| b.block.id <= 2 * gp);
         let desc = hist_json(&h);
         if debug {
             eprintln!("history {}: {}", hi, desc);
@@ -891,9 +1166,10 @@ fn main() {
         }
         let total_points = points.len();
         if points.len() > per_hist_budget {
-            // keep the final clean point and a few clean boundaries, sample the rest
+            // keep the final clean point, sample the rest
             let mut keep: Vec<CrashPoint> = vec![CrashPoint { k: h.journal.len(), torn: None }];
-            let mut rest: Vec<CrashPoint> = points.into_iter().filter(|p| !(p.k == h.journal.len() && p.torn.is_none())).collect();
+            let mut rest: Vec<CrashPoint> =
+                points.into_iter().filter(|p| !(p.k == h.journal.len() && p.torn.is_none())).collect();
             while keep.len() < per_hist_budget && !rest.is_empty() {
                 let i = rng.below(rest.len() as u64) as usize;
                 keep.push(rest.swap_remove(i));
@@ -910,38 +1186,80 @@ fn main() {
             h.blocks.iter().skip(i + 1).any(|c| c.parent == b.parent && b.parent.is_some())
         });
         let purged = h.journal.iter().any(|op| matches!(op, DiskOp::Remove(_)));
+        let mut int = rank_interned(&h);
+        let (g_blocks, g_journal) = if model && in_regime {
+            (gallina_pblks(&h, &mut int), gallina_journal(&h, &int))
+        } else {
+            (String::new(), String::new())
+        };
+        if model && !in_regime {
+            summary.notes.push(format!("history {} left the regime of the chain model; harness error", hi));
+            eprintln!("harness: model history {} has an id above 2*gp", hi);
+            std::process::exit(2);
+        }
         for cp in &points {
-            // (c) a torn block file must be rejected by the decoder
-            if let Some((class, m)) = cp.torn {
-                if let DiskOp::Write(_, bytes) = &h.journal[cp.k - 1] {
-                    let r = std::panic::catch_unwind(|| Block::deserialize_from_net(&bytes[..m]));
-                    match r {
-                        Ok(Err(_)) => {}
-                        Ok(Ok(_)) => summary.oracle_failure(
-                            case_no,
-                            &format!("torn block file ({}: {} of {} bytes) was decoded as a block", class, m, bytes.len()),
-                            &desc,
-                        ),
-                        Err(_) => summary.oracle_failure(
-                            case_no,
-                            &format!("decoder panicked on a torn block file ({}: {} of {} bytes)", class, m, bytes.len()),
-                            &desc,
-                        ),
-                    }
-                }
-            }
             if let Ok(only) = std::env::var("C12_ONLY") {
                 if only != format!("{}:{}", hi, cp.k) {
                     continue;
                 }
             }
+            // (c) a torn block file must be rejected by the decoder (C10)
+            let cp_desc = format!(
+                "{{\"history\":{},\"crash_after_ops\":{},\"last_op\":{},\"history_desc\":{}}}",
+                hi,
+                cp.k,
+                match cp.torn {
+                    None => "\"complete\"".to_string(),
+                    Some((c, m)) => format!("{{\"torn\":{},\"bytes_written\":{}}}", jstr(c), m),
+                },
+                desc
+            );
+            if let Some((class, m)) = cp.torn {
+                if let DiskOp::Write(_, bytes) = &h.journal[cp.k - 1] {
+                    let r = std::panic::catch_unwind(|| Block::deserialize_from_net(&bytes[..m]));
+                    match r {
+                        Ok(Err(_)) => torn_rejected += 1,
+                        Ok(Ok(_)) => summary.oracle_failure(
+                            case_no,
+                            &format!("torn block file ({}: {} of {} bytes) was decoded as a block", class, m, bytes.len()),
+                            &cp_desc,
+                        ),
+                        Err(_) => summary.oracle_failure(
+                            case_no,
+                            &format!("decoder panicked on a torn block file ({}: {} of {} bytes)", class, m, bytes.len()),
+                            &cp_desc,
+                        ),
+                    }
+                }
+            }
             let out = run_crash_point(&shared, cp, Duration::from_secs(20));
             let v = judge(&ctx, cp, &out);
             if std::env::var("C12_ONLY").is_ok() {
+                if std::env::var("C12_DUMP").is_ok() {
+                    for (i, op) in h.journal.iter().enumerate() {
+                        if let DiskOp::Write(n, bytes) = op {
+                            eprintln!("op {} write {} ({} bytes)", i, n, bytes.len());
+                            if let Ok(b) = Block::deserialize_from_net(bytes) {
+                                for (ti, tx) in b.transactions.iter().enumerate() {
+                                    eprintln!("   tx {} type {:?} from {:?} to {:?}", ti, tx.transaction_type,
+                                        tx.from.iter().map(|s| (s.block_id, s.tx_ordinal, s.slip_index, s.amount)).collect::<Vec<_>>(),
+                                        tx.to.iter().map(|s| (s.block_id, s.tx_ordinal, s.slip_index, s.amount)).collect::<Vec<_>>());
+                                }
+                            }
+                        }
+                    }
+                    for (i, b) in h.blocks.iter().enumerate() {
+                        for (ti, tx) in b.block.transactions.iter().enumerate() {
+                            eprintln!(" pristine block {} tx {} type {:?} from {:?} to {:?}", i + 1, ti, tx.transaction_type,
+                                tx.from.iter().map(|s| (s.block_id, s.tx_ordinal, s.slip_index, s.amount)).collect::<Vec<_>>(),
+                                tx.to.iter().map(|s| (s.block_id, s.tx_ordinal, s.slip_index, s.amount)).collect::<Vec<_>>());
+                        }
+                    }
+                }
                 let (mi, clean) = locate(&h, cp);
                 eprintln!("crash point {:?} mark {} clean {}", cp, mi, clean);
                 if let Ok(o) = &out {
-                    eprintln!("outcome: panic {:?} loaded {} intact {} ops {:?} deleted {:?} supply {} c03 {:?} extend {:?}", o.panic, o.loaded, o.intact_on_disk, o.restart_ops, o.deleted, o.supply, o.c03, o.extend);
+                    eprintln!("outcome: panic {:?} loaded {} intact {} ops {:?} deleted {:?} supply {} c03 {:?} extend {:?} orphans {:?}", o.panic, o.loaded, o.intact_on_disk, o.restart_ops, o.deleted, o.supply, o.c03, o.extend, o.orphans);
                     let show = |s: &ChainSnapshot| {
                         eprintln!(" tip {} lc {:?}", s.tip_id, s.lc_index.iter().map(|x| x.0).collect::<Vec<_>>());
                         eprintln!(" blocks {:?}", s.blocks.iter().map(|b| (b.1, b.2)).collect::<Vec<_>>());
@@ -959,17 +1277,8 @@ fn main() {
                         show(s);
                     }
                 }
+                eprintln!("verdict: failures {:?} known {:?}", v.failures, v.known);
             }
-            let cp_desc = format!(
-                "{{\"history\":{},\"crash_after_ops\":{},\"last_op\":{},\"history_desc\":{}}}",
-                hi,
-                cp.k,
-                match cp.torn {
-                    None => "\"complete\"".to_string(),
-                    Some((c, m)) => format!("{{\"torn\":{},\"bytes_written\":{}}}", jstr(c), m),
-                },
-                desc
-            );
             if debug && (!v.failures.is_empty() || !v.known.is_empty()) {
                 eprintln!("case {} h{} k={} torn={:?}: {:?} {:?}", case_no, hi, cp.k, cp.torn, v.failures, v.known);
             }
@@ -979,20 +1288,44 @@ fn main() {
             for (id, w) in &v.known {
                 summary.known_hit(id, case_no, w);
             }
+            if model {
+                // model case: Coq's k = number of complete operations
+                let (ck, ct) = match cp.torn {
+                    None => (cp.k, false),
+                    Some(_) => (cp.k - 1, true),
+                };
+                let rows = match &out {
+                    Ok(o) => impl_rows(&mut int, o),
+                    Err(_) => vec![vec![7]],
+                };
+                coq_cases.push(format!(
+                    "((({}, false), {}, {}, ({}, {})), {})",
+                    gp,
+                    g_blocks,
+                    g_journal,
+                    ck,
+                    gal::boolean(ct),
+                    gal::nllist(&rows)
+                ));
+            }
+            let (_, clean) = locate(&h, cp);
+            if clean {
+                clean_points += 1;
+            }
             summary.count("gp", &gp.to_string());
             summary.count("last_op", match cp.torn {
                 None => "complete",
                 Some((c, _)) => c,
             });
+            summary.count("clean_shutdown_point", &clean.to_string());
             summary.count("restarted_tip", v.tip_class);
-            if let Ok(o) = &out {
-                summary.count("orphan_deliveries_at_restart", &o.orphans.len().min(3).to_string());
-            }
             summary.count("blocks_lost", &v.lost.min(9).to_string());
             summary.count("history_has_fork", &has_fork.to_string());
             summary.count("history_purged", &purged.to_string());
+            summary.count("compared_with_model", &model.to_string());
             if let Ok(o) = &out {
                 summary.count("restart_deletes", &o.restart_ops.1.min(9).to_string());
+                summary.count("orphan_deliveries_at_restart", &o.orphans.len().min(3).to_string());
             }
             let nontrivial = cp.k > 1 && (has_fork || purged || cp.torn.is_some());
             if nontrivial && distinct.insert(format!("{}:{}:{:?}", hi, cp.k, cp.torn)) {
@@ -1004,9 +1337,27 @@ fn main() {
             summary.case_descs.push(cp_desc);
             case_no += 1;
         }
-        summary.count("crash_points_of_history", &format!("{}", (total_points / 50) * 50));
-        let _ = gal::n(0);
+        summary.count("crash_points_of_history", &format!("{}+", (total_points / 50) * 50));
     }
     summary.evaluations = case_no as u64;
+    summary.notes.push(format!(
+        "restart is driven through the real ConsensusThread::on_init (a ConsensusThread constructed over the rebuilt disk); {} crash points, {} of them clean shutdown points (journal position at the end of a step, nothing torn); {} torn files offered to Block::deserialize_from_net, all rejected unless listed as failure; {} crash points lie in histories inside the regime of the Coq chain model and were compared with Storage.restart (state, the restart's own storage operations, final directory)",
+        case_no, clean_points, torn_rejected, coq_cases.len()
+    ));
+    let header = "From Saito Require Import Base Chain Storage.\n\
+        Definition check (c : ((N * bool) * list (N * blk) * list (N * N) * (N * bool)) * list (list N)) : bool :=\n\
+        let '((cfg, ps, j, (k, torn)), expected) := c in eqb_llN (case_rows cfg ps j k torn) expected.";
+    if std::env::var("C12_ONLY").is_err() {
+        let files = gal::write_shards(
+            &format!("{}/cases", args.out),
+            "C12",
+            header,
+            "((N * bool) * list (N * blk) * list (N * N) * (N * bool)) * list (list N)",
+            &coq_cases,
+            args.shards,
+        )
+        .unwrap();
+        summary.case_files = files;
+    }
     summary.write(&args.out);
 }
